@@ -44,6 +44,16 @@ CLAIMED = {
    note="SHA512/256 decides which ranges match (leaf).",
    technique="TLA+ spec evaluated by TLC; trace validation of the real verdict and batches",
    design="4/C17"),
+ "C01": dict(
+   text="Assemble.tla (chunk-level model of plan / validate / bail-skip-regenerate / seed copy + re-hash / self-seed / in-place reuse with a seed "
+        "that may alias the target or change under the copy) is explored exhaustively for all indexes, prior contents and seed indexes of 3-4 "
+        "chunks and 2-3 workers. The real AssembleFile runs under a gate scheduler on generated scenarios (all seed kinds, prior contents, "
+        "actions, worker counts, emulated block cloning with chunk sizes below and above the block size); after every worker step the "
+        "whole target file is read back and Trace_Assemble.tla checks frame condition, self-seed invariant, plan well-formedness, the "
+        "verdict and the promised success. Panics and hangs of the real code are violations.",
+   note="FICLONERANGE is emulated in-process (generic VFS remap rules); SHA512/256 is a leaf; block devices out of scope.",
+   technique="TLA+ spec + TLC model checking; trace validation with per-step state read-back under randomised/PCT schedules",
+   design="4/C01"),
 }
 
 NOT_YET = "check not built yet in this round (planned in DESIGN.md section 4)"
